@@ -52,6 +52,16 @@ def argList : Plan → List Plan
   | pcons h t => h :: argList t
   | _ => []
 
+/-- struct kind as the plan dump spells it -/
+def kindName : Plan → String
+  | nil => "_" | context => "context" | absolute => "absolute" | ancestor _ _ _ => "ancestor" | attr _ _ => "attribute"
+  | child _ _ => "child" | cachedChild _ _ => "cachedChild" | descendant _ _ _ => "descendant"
+  | following _ _ _ => "following" | preceding _ _ _ => "preceding" | parent _ _ => "parent" | self _ _ => "self"
+  | filter _ _ => "filter" | func _ _ _ => "function" | pnil => "" | pcons _ _ => "" | transform _ _ => "transform"
+  | constStr _ => "const" | constNum _ => "const" | group _ => "group" | logical _ _ _ => "logical"
+  | numeric _ _ _ => "numeric" | boolean _ _ _ => "boolean" | union _ _ => "union" | lastFunc _ => "lastFunc"
+  | descOverDesc _ _ _ => "descOverDesc" | merge _ _ => "merge"
+
 /-- the plan-dump format of the hook `VerifPlanDump` -/
 def dump (nf : String → String) : Plan → String
   | nil => "_"
@@ -67,7 +77,7 @@ def dump (nf : String → String) : Plan → String
   | parent _ i => "(parent " ++ i.dump nf ++ ")"
   | self _ i => "(self " ++ i.dump nf ++ ")"
   | filter i p => "(filter " ++ i.dump nf ++ " " ++ p.dump nf ++ ")"
-  | func n fi _ => "(function " ++ (if n == "last" || n == "position" then fi.dump nf else "_") ++ ")"
+  | func n fi _ => "(function " ++ (if n == "last" || n == "position" then fi.kindName else "_") ++ ")"
   | pnil => ""
   | pcons h t => h.dump nf ++ t.dump nf
   | transform _ i => "(transform " ++ i.dump nf ++ ")"
